@@ -5,6 +5,7 @@
   and propose the minimal corrected statement.
 -/
 import Cgp.ItsOps
+import Cgp.Token
 import Cgp.Proofs.C05
 namespace Cgp.Props.C05
 open Cgp Cgp.Xdr Cgp.Its
@@ -212,5 +213,65 @@ theorem custody_run (st : State) (ops : List Op) (a : Addr) (hgs : st.gasService
     rw [hself] at h2
     rw [e, h2, h1]
     simp only [netCustody, Int.add_assoc]
+
+/-! ### refinement: on a service-deployed token the ledger primitives used above ARE the token contract's entry points
+    (`Cgp.Token`, the model checked against contracts/interchain-token by property C12) -/
+
+/-- a `Cgp.Token` state seen as an entry of the service's token ledger -/
+def asTok (ts : Token.State) (tid name symbol : Bytes) (decimals : Nat) : Tok :=
+  { kind := .interchain, name, symbol, decimals, bal := ts.bal, owner := ts.owner, minter := ts.minter, tokenId := tid }
+
+/-- `burn`: the ledger primitive succeeds exactly when the token's `burn` does, with the same resulting balances -/
+theorem burn_refines (st : State) (a : Addr) (ts : Token.State) (tid name symbol : Bytes) (decimals : Nat)
+    (c : Token.Ctx) (src : Addr) (amount : Int) (h : st.tokens a = some (asTok ts tid name symbol decimals)) :
+    (∃ st' ts' evs, tokBurn st a src amount (decide (src ∈ c.auths)) = .ok st' ∧ Token.burn ts c src amount = .ok (ts', evs) ∧
+        st'.tokens a = some (asTok ts' tid name symbol decimals)) ∨
+    ((∃ e, tokBurn st a src amount (decide (src ∈ c.auths)) = .error e) ∧ (∃ e, Token.burn ts c src amount = .error e)) := by
+  unfold tokBurn Token.burn Token.spendBalance
+  rw [h]
+  by_cases ha : src ∈ c.auths
+  · by_cases hn : amount < 0
+    · right; simp [asTok, ha, hn]
+    · by_cases hb : ts.bal src < amount
+      · right; simp [asTok, ha, hn, hb]
+      · left; simp [asTok, ha, hn, hb, setTok]
+  · right; simp [asTok, ha]
+
+/-- `transfer` -/
+theorem transfer_refines (st : State) (a : Addr) (ts : Token.State) (tid name symbol : Bytes) (decimals : Nat)
+    (c : Token.Ctx) (src dst : Addr) (amount : Int) (h : st.tokens a = some (asTok ts tid name symbol decimals)) :
+    (∃ st' ts' evs, tokTransfer st a src dst amount (decide (src ∈ c.auths)) = .ok st' ∧ Token.transfer ts c src dst amount = .ok (ts', evs) ∧
+        st'.tokens a = some (asTok ts' tid name symbol decimals)) ∨
+    ((∃ e, tokTransfer st a src dst amount (decide (src ∈ c.auths)) = .error e) ∧ (∃ e, Token.transfer ts c src dst amount = .error e)) := by
+  unfold tokTransfer Token.transfer Token.spendBalance Token.receiveBalance
+  rw [h]
+  by_cases ha : src ∈ c.auths
+  · by_cases hn : amount < 0
+    · right; simp [asTok, ha, hn]
+    · by_cases hb : ts.bal src < amount
+      · right; simp [asTok, ha, hn, hb]
+      · have e : Token.i128Max = Its.i128Max := rfl
+        by_cases ho : Its.i128Max < (if dst = src then ts.bal src - amount else ts.bal dst) + amount
+        · right; simp [asTok, ha, hn, hb, ho, e]
+        · left; simp [asTok, ha, hn, hb, ho, setTok, e]
+  · right; simp [asTok, ha]
+
+/-- `mint` by the service (the token's owner, calling as itself): succeeds exactly when the token's owner-`mint` does -/
+theorem mint_refines (st : State) (a : Addr) (ts : Token.State) (tid name symbol : Bytes) (decimals : Nat)
+    (c : Token.Ctx) (dst : Addr) (amount : Int) (h : st.tokens a = some (asTok ts tid name symbol decimals))
+    (hown : ts.owner = st.self) (hauth : st.self ∈ c.auths) :
+    (∃ st' ts' evs, tokMintByService st a dst amount = .ok st' ∧ Token.mint ts c dst amount = .ok (ts', evs) ∧
+        st'.tokens a = some (asTok ts' tid name symbol decimals)) ∨
+    ((∃ e, tokMintByService st a dst amount = .error e) ∧ (∃ e, Token.mint ts c dst amount = .error e)) := by
+  unfold tokMintByService Token.mint Token.mintFrom Token.receiveBalance
+  rw [h]
+  have e : Token.i128Max = Its.i128Max := rfl
+  by_cases hm : ts.minter st.self = true
+  · by_cases hn : amount < 0
+    · right; simp [asTok, hown, hauth, hm, hn]
+    · by_cases ho : Its.i128Max < ts.bal dst + amount
+      · right; simp [asTok, hown, hauth, hm, hn, ho, e]
+      · left; simp [asTok, hown, hauth, hm, hn, ho, setTok, e]
+  · right; simp [asTok, hown, hauth, hm]
 
 end Cgp.Props.C05
